@@ -32,6 +32,8 @@ type C11 struct {
 type c11Base struct {
 	calls []string // signature of each faultable call of the failure-free run
 	final string
+	// maxLive: the largest number of live pods one node ever held in the failure-free run
+	maxLive int
 }
 
 type c11Case struct {
@@ -322,8 +324,8 @@ func (e *C11) init(ctx0 *core.Ctx, tier string, seed int64) {
 	_ = dummy
 	for _, sc := range c11Scripts() {
 		ctx := core.ScratchCtx("C11", tier, seed)
-		calls, final, _, _ := e.runScript(ctx, sc, 0, 0, 0, 0, false)
-		e.base[sc.name] = &c11Base{calls: calls, final: final}
+		calls, final, _, bw := e.runScript(ctx, sc, 0, 0, 0, 0, false)
+		e.base[sc.name] = &c11Base{calls: calls, final: final, maxLive: bw.MaxLivePerNode}
 		for k, sig := range calls {
 			isWrite := !(strings.HasPrefix(sig, "get ") || strings.HasPrefix(sig, "list "))
 			_ = isWrite // both tiers enumerate every call; thorough adds pairs
@@ -395,6 +397,24 @@ func (e *C11) Run(ctx *core.Ctx, idx int) {
 	}
 	if os.Getenv("VH_DEBUG") != "" && len(hit) > 0 && strings.Contains(hit[0], "update ExtendedDaemonSet @extendeddaemonset.(*Reconciler).updateInstanceWithCurrentRS") && !strings.Contains(hit[0], "status-update") {
 		fmt.Fprintf(os.Stderr, "DEBUG %s %v\nFINAL:\n%s\nBASE:\n%s\nTRACE:\n%s\n", cs.script, hit, final, base.final, strings.Join(w.Trace, "\n"))
+	}
+	ctx.Count("C11.store-invariant-runs-judged")
+	if w.MaxLivePerNode > base.maxLive {
+		// store-level safety at every intermediate point: a node never holds more live daemon pods
+		// than it ever does in the failure-free run of the same scenario
+		attrs := map[string]string{"scenario": cs.script, "fault": cs.f1.String(), "invariant": "one-live-pod-per-node"}
+		if len(hit) > 0 {
+			h := hit[0]
+			if i := strings.Index(h, " "); i > 0 {
+				h = h[i+1:]
+			}
+			attrs["call"] = strings.SplitN(h, ":", 2)[0]
+		}
+		tr := w.Trace
+		if len(tr) > 120 {
+			tr = tr[len(tr)-120:]
+		}
+		ctx.Violation("C11", "C11.safety-state", attrs, map[string]any{"case": desc, "witness": w.MaxLiveWitness, "failure-free-max": base.maxLive, "trace_tail": tr})
 	}
 	if final != base.final {
 		attrs := map[string]string{"scenario": cs.script, "fault": cs.f1.String(), "pair": fmt.Sprint(cs.k2 > 0)}
